@@ -79,7 +79,7 @@ def candidates(recs_by_def, known):
     return out
 
 
-def inline_into(caller, callee_def, callee):
+def inline_into(caller, callee_def, callee, bodies=None):
     """splice every call to callee_def in `caller` (a rec dict, modified in place). returns number of sites inlined"""
     n = 0
     i = 0
@@ -109,10 +109,148 @@ def inline_into(caller, callee_def, callee):
             for ai, a in enumerate(t["args"]):
                 blk["stmts"].append({"k": "assign", "dst": {"l": loff + 1 + ai, "p": []}, "rv": {"k": "use", "a": copy.deepcopy(a)}, "sp": sp, "exp": False})
             blk["term"] = {"k": "goto", "t": boff}
+            if bodies is not None:
+                rehome_closures(bodies, callee["def"], caller, new_blocks)
             caller["blocks"].extend(new_blocks)
             n += 1
         i += 1
     return n
+
+
+_REHOME = [0]
+
+
+def _replace_prefix(obj, old, new):
+    """rewrite def-path strings starting with `old` (closure definitions of an inlined helper) to start with `new`"""
+    if isinstance(obj, dict):
+        for k, v in list(obj.items()):
+            if isinstance(v, str):
+                if v.startswith(old):
+                    obj[k] = new + v[len(old):]
+                elif old in v and k in ("callee_args",):
+                    obj[k] = v.replace(old, new)
+            else:
+                _replace_prefix(v, old, new)
+    elif isinstance(obj, list):
+        for i, v in enumerate(obj):
+            if isinstance(v, str):
+                if v.startswith(old):
+                    obj[i] = new + v[len(old):]
+            else:
+                _replace_prefix(v, old, new)
+
+
+def rehome_closures(bodies, helper_raw, caller, new_blocks):
+    """closures defined inside an inlined helper become closures of the caller (copied, so that each caller has its own):
+    `helper::{closure#k}..` -> `caller::{closure#9nnk}..`; references inside the spliced blocks are rewritten"""
+    old = helper_raw + "::{closure#"
+    nested = [(d, r) for d, r in bodies.items() if r["def"].startswith(old)]
+    if not nested:
+        return
+    _REHOME[0] += 1
+    new = caller["def"] + "::{closure#9%02d" % _REHOME[0]
+    _replace_prefix(new_blocks, old, new)
+    for d, r in nested:
+        c = copy.deepcopy(r)
+        _replace_prefix(c, old, new)
+        c["def"] = new + r["def"][len(old):]
+        if c.get("parent", "").startswith(helper_raw):
+            c["parent"] = caller["def"] if c["parent"] == helper_raw else new + c["parent"][len(old):] if c["parent"].startswith(old) else c["parent"]
+        if c.get("root", "").startswith(helper_raw):
+            c["root"] = caller.get("root", caller["def"])
+        c["_rehomed_from"] = r["def"]
+        bodies[strip_generics(c["def"])] = c
+
+
+def _bind_env(obj, env_local, env):
+    """places rooted at the coroutine's environment local with a leading capture projection -> the bound capture local"""
+    if isinstance(obj, dict):
+        if "l" in obj and "p" in obj and isinstance(obj.get("p"), list):
+            if obj["l"] == env_local and obj["p"] and isinstance(obj["p"][0], list) and obj["p"][0][0] == "f" and obj["p"][0][1] in env:
+                obj["l"] = env[obj["p"][0][1]]
+                obj["p"] = obj["p"][1:]
+            return
+        for v in obj.values():
+            _bind_env(v, env_local, env)
+    elif isinstance(obj, list):
+        for x in obj:
+            _bind_env(x, env_local, env)
+
+
+def inline_async_into(caller, fdef, gdef, g, bodies=None):
+    """`helper(args).await` inside `caller`: the creation call binds the coroutine's captures, the poll call is replaced by the
+    coroutine body (result wrapped in Poll::Ready). Creation and poll sites are paired in block order. returns #sites or 0"""
+    creates = [b for b in caller["blocks"] if b["term"]["k"] == "call" and _callee_of(b["term"]) == fdef]
+    polls = [b for b in caller["blocks"] if b["term"]["k"] == "call" and _callee_of(b["term"]) == gdef]
+    caps = g.get("captures", [])
+    if not creates or len(creates) != len(polls) or any(len(b["term"]["args"]) != len(caps) for b in creates):
+        return 0
+    for cb, pb in zip(creates, polls):
+        ct, pt = cb["term"], pb["term"]
+        env = {}
+        for k, nm in enumerate(caps):
+            env[nm] = len(caller["locals"])
+            caller["locals"].append({"ty": "?", "name": nm, "user": True})
+            cb["stmts"].append({"k": "assign", "dst": {"l": env[nm], "p": []}, "rv": {"k": "use", "a": copy.deepcopy(ct["args"][k])}, "sp": ct.get("sp", ""), "exp": False})
+        cb["term"] = {"k": "goto", "t": ct["t"]} if ct.get("t") is not None else {"k": "unreachable"}
+        loff = len(caller["locals"])
+        boff = len(caller["blocks"])
+        caller["locals"].extend(copy.deepcopy(g["locals"]))
+        new_blocks = copy.deepcopy(g["blocks"])
+        _shift(new_blocks, loff, boff)
+        _bind_env(new_blocks, loff + 1, env)
+        sp = pt.get("sp", "")
+        for nb in new_blocks:
+            if nb["term"]["k"] == "return":
+                if pt.get("t") is not None:
+                    nb["stmts"].append({"k": "assign", "dst": copy.deepcopy(pt["dst"]),
+                                        "rv": {"k": "agg", "ak": "adt", "adt": "core::task::poll::Poll", "variant": "Ready", "is_enum": True, "fields": ["0"], "ops": [{"m": {"l": loff, "p": []}}]},
+                                        "sp": sp, "exp": True})
+                    nb["term"] = {"k": "goto", "t": pt["t"]}
+                else:
+                    nb["term"] = {"k": "unreachable"}
+        if len(pt["args"]) > 1:
+            pb["stmts"].append({"k": "assign", "dst": {"l": loff + 2, "p": []}, "rv": {"k": "use", "a": copy.deepcopy(pt["args"][1])}, "sp": sp, "exp": True})
+        pb["term"] = {"k": "goto", "t": boff}
+        if bodies is not None:
+            rehome_closures(bodies, g["def"], caller, new_blocks)
+        caller["blocks"].extend(new_blocks)
+    return len(creates)
+
+
+def inline_new_async_helpers(bodies, known, done):
+    progressed = False
+    for d, r in sorted(list(bodies.items())):
+        if d in known or r.get("kind") not in ("Fn", "AssocFn") or r.get("vis") == "Public" or not r.get("asyncness") or r.get("macro_generated") or d.startswith("<"):
+            continue
+        gdef = d + "::{closure#0}"
+        g = bodies.get(gdef)
+        if g is None or not g.get("coroutine") or len(g["blocks"]) > 1500:
+            continue
+        # not recursive
+        if any(b["term"]["k"] == "call" and _callee_of(b["term"]) in (d, gdef) for b in g["blocks"]):
+            continue
+        callers = [cd for cd, c in bodies.items() if cd not in (d, gdef) and any(b["term"]["k"] == "call" and _callee_of(b["term"]) == d for b in c["blocks"])]
+        if not callers:
+            continue
+        where = []
+        for cd in callers:
+            c = bodies[cd]
+            if "_inlined_copy" not in c:
+                c = copy.deepcopy(c)
+                c["_inlined_copy"] = True
+            k = inline_async_into(c, d, gdef, g, bodies)
+            if k:
+                bodies[cd] = c
+                where.append((cd, k))
+        remaining = any(b["term"]["k"] == "call" and _callee_of(b["term"]) in (d, gdef) for cd, c in bodies.items() if cd not in (d, gdef) for b in c["blocks"])
+        if where and not remaining:
+            del bodies[d]
+            for nd in [x for x in bodies if x == gdef or x.startswith(gdef + "::{closure")]:
+                del bodies[nd]
+            done.append((d + " (async)", where))
+            progressed = True
+    return progressed
 
 
 def inline_new_helpers(recs, known, rounds=4):
@@ -121,9 +259,9 @@ def inline_new_helpers(recs, known, rounds=4):
     done = []
     for _ in range(rounds):
         cands = candidates(bodies, known)
-        if not cands:
+        progressed = inline_new_async_helpers(bodies, known, done)
+        if not cands and not progressed:
             break
-        progressed = False
         for d, r in sorted(cands.items()):
             # a helper that itself still calls another candidate is handled in a later round
             if any(b["term"]["k"] == "call" and _callee_of(b["term"]) in cands and _callee_of(b["term"]) != d for b in r["blocks"]):
@@ -143,12 +281,14 @@ def inline_new_helpers(recs, known, rounds=4):
                     c2["_inlined_copy"] = True
                     bodies[strip_generics(c["def"])] = c2
                     c = c2
-                k = inline_into(c, d, r)
+                k = inline_into(c, d, r, bodies)
                 if k:
                     where.append((strip_generics(c["def"]), k))
             remaining = any(b["term"]["k"] == "call" and _callee_of(b["term"]) == d for c in bodies.values() for b in c["blocks"])
             if where and not remaining:
                 del bodies[d]
+                for nd in [x for x in bodies if x.startswith(d + "::{closure")]:
+                    del bodies[nd]
                 done.append((d, where))
                 progressed = True
         if not progressed:
